@@ -24,14 +24,14 @@ GROUPS["reader_step"] = {
     "params_crates": ["flussab"],
     "params": {
         "quick": {"CAP": 8, "MAXCHUNK": 2, "MAXREQ": 6, "SCAP": 16, "SHRINKCAP": 12},
-        "thorough": {"CAP": 12, "MAXCHUNK": 4, "MAXREQ": 9, "SCAP": 26, "SHRINKCAP": 16},
+        "thorough": {"CAP": 12, "MAXCHUNK": 4, "MAXREQ": 9, "SCAP": 26, "SHRINKCAP": 12},
     },
     "timeout": {"quick": 1500, "thorough": 5400},
     "flags_tier": {"quick": ["--default-unwind", "8"], "thorough": ["--default-unwind", "11"]},
     "harnesses": [
         ("step_request_more", {"props": ["C02", "C09", "C10", "C14", "C01", "C04", "C08"], "cost": 9,
                                "what": "one request_more from any Inv-state: window content, position, mark, flags, one read, buffer size bound"}),
-        ("step_request_more_shrink_region", {"props": ["C02", "C10", "C14"], "cost": 10, "flags": ["--default-unwind", "14"], "rss_gb": 24, "flags_tier": {"thorough": ["--default-unwind", "18"]},
+        ("step_request_more_shrink_region", {"props": ["C02", "C10", "C14"], "cost": 10, "flags": ["--default-unwind", "14"], "rss_gb": 24,
                                              "what": "request_more in the realign + shrink region with a buffer of up to SHRINKCAP bytes (chunk 1): the live window survives the shrink decision at its boundary cases"}),
         ("step_request", {"props": ["C02", "C09", "C14"], "cost": 3,
                           "what": "request(n): falls short only at end/error, no read when buffered data suffices"}),
